@@ -99,6 +99,9 @@ def _fp_case(draw):
         "atol": atol, "rtol": rtol,
         "max_iter": draw(st.sampled_from([1, 2, 3, 5, 10, 30, 100, 1000, 3000])),
         "helper": draw(st.sampled_from(["plain", "momentum"])),
+        # how the map treats its argument: returns a new array, overwrites the argument, or (like the map in
+        # DualStormerVerlet._step with its multiplier blocks) overwrites the trailing components through views
+        "inplace": draw(st.sampled_from(["none", "none", "full", "tail"])),
     }
 
 
@@ -218,9 +221,20 @@ def _check_fp(spec, res):
     g = lambda z: L @ z + c + eps * np.sin(z)
     calls = [0]
 
+    style = spec.get("inplace", "none")
+
     def fun(x):
         calls[0] += 1
-        return D * g(x / D)
+        y = D * g(x / D)
+        if style == "full":
+            x[:] = y
+            return x
+        if style == "tail":
+            k = n // 2
+            tail = x[k:]
+            tail[:] = y[k:]
+            return np.concatenate([y[:k], tail])
+        return y
 
     x0 = D * np.array(spec["z0"], dtype=float)
     helper = dsv.fixed_point_iteration if spec["helper"] == "plain" else dsv.fixed_point_iteration_with_momentum
@@ -246,7 +260,8 @@ def _check_fp(spec, res):
     if nit > spec["max_iter"]:
         res.fail("iteration_limit", site, nit, feats)
     res.nontrivial = calls[0] >= 2
-    res.label("fixed_point_returned", f"helper:{spec['helper']}", f"map:{spec.get('structure', 'coupled')}")
+    res.label("fixed_point_returned", f"helper:{spec['helper']}", f"map:{spec.get('structure', 'coupled')}",
+              f"argument:{'overwritten' if style != 'none' else 'untouched'}")
 
 
 def _check_fd(spec, res):
